@@ -266,7 +266,8 @@ def resume_atomicity(ck, P):
         drops = {c.bb for c in fn.live_calls(r"BitReader::(drop_bits|advance|init_bits)$")}
         commits = set()
         for bi, fp, root, rv, s in fn.field_writes():
-            if root == ("p", 1) and fp[0] not in ("bit_reader", "mode"):
+            # `back` only counts bits for inflateMark: it records no progress that a re-entry of the arm would pick up
+            if root == ("p", 1) and fp[0] not in ("bit_reader", "mode", "back"):
                 commits.add(bi)
         for c in fn.live_calls(r"Writer::(push|extend|extend_from_window|copy_match)$|Flags::update$"):
             commits.add(c.bb)
